@@ -308,6 +308,27 @@ CLAIMED["C07"] = {
     "for logit / log, xmin < xmax, scale != 0, finite inputs as E(x) > 0).",
 }
 
+CLAIMED["C08"] = {
+    "text": "Partial claim, proved over an abstract flow (the transform is "
+    "an uninterpreted bijection Tf/Ti between data and latent space with "
+    "log-Jacobians Dj/Di, Di(Tf x) = -Dj(x); base density Bz; alternative "
+    "latent density AltB): for every such transform and density, "
+    "NFlow.forward / inverse / log_prob / forward_and_log_prob / "
+    "sample_and_log_prob / sample / base_distribution_log_prob and the "
+    "numpy-level FlowModel.log_prob / forward_and_log_prob / "
+    "sample_and_log_prob (drawn, supplied latent points, alternative latent "
+    "distribution) satisfy: inverse(forward(x)) = x, the density reported "
+    "with a generated sample equals log_prob evaluated at that sample "
+    "(Bz(Tf x) + Dj x), supplied latent points use the base density or the "
+    "alternative distribution exactly as documented, the array interface "
+    "agrees with the model and leaves it in eval mode.",
+    "note": "NOT decided here: that the built-in RealNVP / MAF / NSF "
+    "transforms are bijections with correct log-determinants (glasflow / "
+    "torch code: assumed as the abstract-flow axioms), normalisation of the "
+    "density (an integral), floating-point tolerances, conditional inputs "
+    "(conditional=None only).",
+}
+
 NA = {
     "C06": "statistical calibration over seeds: no pre/post-condition on a "
     "function expresses a distributional claim and no deductive back end "
